@@ -281,15 +281,21 @@ TrapProg(c1, c2, h, two, er) ==
          Ln(10, <<OnTrap(1, 100)>> \o (IF two THEN <<OnTrap(2, 150), TrapCmd(2, "ON")>> ELSE <<>>)),
          Ln(20, <<TrapCmd(1, c1)>>),
          Ln(30, <<Prt(C(1))>>),
-         Ln(40, <<TrapCmd(1, c2)>> \o (IF er THEN <<[op |-> "ERROR", e |-> C(5), col |-> TRUE]>> ELSE <<>>)),
+         \* c2 = "RESTOP": KEY(1) STOP, then the trap is removed (ON KEY(1) GOSUB 0) and set again: the event stays stopped
+         Ln(40, (IF c2 = "RESTOP" THEN <<TrapCmd(1, "STOP"), OnTrap(1, 0), OnTrap(1, 100)>> ELSE <<TrapCmd(1, c2)>>)
+                \o (IF er THEN <<[op |-> "ERROR", e |-> C(5), col |-> TRUE]>> ELSE <<>>)),
          Ln(50, <<Prt(C(2))>>),
          Ln(60, <<EndS>>),
-         Ln(100, <<Prt(C(9))>> \o (IF h = "none" THEN <<>> ELSE <<TrapCmd(1, h)>>) \o <<Prt(C(8)), Ret>>),
+         \* h = "REGOSUB": the handler removes and re-installs its own trap line (it must still not be re-entered before RETURN)
+         Ln(100, <<Prt(C(9))>> \o (IF h = "none" THEN <<>> ELSE IF h = "REGOSUB" THEN <<OnTrap(1, 0), OnTrap(1, 100)>> ELSE <<TrapCmd(1, h)>>)
+                 \o <<Prt(C(8)), Ret>>),
          Ln(150, <<Prt(C(7)), Ret>>),
          Ln(200, <<Prt(C(6)), Prt(C(5)), [op |-> "RESUME", w |-> "NEXT", n |-> 0, col |-> TRUE]>>)>>,
        [kind |-> "trap", expect |-> <<>>, endk |-> "end", code |-> 0, line |-> 0])
 TrapFamily == {TrapProg(c1, c2, h, two, er) : c1 \in {"ON", "OFF", "STOP"}, c2 \in {"ON", "OFF", "STOP"},
                                               h \in {"none", "ON", "OFF", "STOP"}, two \in BOOLEAN, er \in BOOLEAN}
+              \cup {TrapProg(c1, "RESTOP", h, FALSE, FALSE) : c1 \in {"ON", "STOP"}, h \in {"none", "OFF", "REGOSUB"}}
+              \cup {TrapProg("ON", c2, "REGOSUB", two, FALSE) : c2 \in {"ON", "STOP"}, two \in BOOLEAN}
 (* ---------------- C20: DEF FN leaves the caller's variables alone ---------------- *)
 DefFn(f, ps, e) == [op |-> "DEFFN", f |-> f, ps |-> ps, e |-> e, col |-> TRUE]
 Call(f, args) == [k |-> "fn", f |-> f, args |-> args]
